@@ -39,6 +39,8 @@ type c04Run struct {
 	perClient  int
 	poolSize   int
 	maxProcs   int
+	udpThreads int  // udp.threads of the UDP listener (0 = default, one reader)
+	udpRoutes  bool // udp.multi_routes
 	cancelRich bool
 	seeds      []uint32
 	// prefetch-rich runs: TTL of a few seconds, a small question pool and clients that keep asking for at
@@ -67,6 +69,7 @@ func mixCase(n vfkit.Name, r uint32) vfkit.Name {
 // runWorkload executes one generated run and returns an error description ("" = all oracles held).
 func runWorkload(t *rapid.T, run c04Run, st *vfkit.Collector, label string) {
 	block := NextIPBlock()
+	defer FreeIPBlock(block)
 	ca := NewCA("vf c04 ca")
 	leaf := ca.Issue(LeafOpts{IPs: []string{block + "2"}})
 	var upQueriesPoison atomic.Int32
@@ -107,6 +110,18 @@ func runWorkload(t *rapid.T, run c04Run, st *vfkit.Collector, label string) {
 		return a
 	}
 	cfg := &Config{Servers: StdServers(block+"10", run.listeners, "")}
+	for i := range cfg.Servers {
+		if cfg.Servers[i].Protocol == "udp" && (run.udpThreads > 0 || run.udpRoutes) {
+			u := map[string]any{}
+			if run.udpThreads > 0 {
+				u["threads"] = run.udpThreads
+			}
+			if run.udpRoutes {
+				u["multi_routes"] = true
+			}
+			cfg.Servers[i].Extra = map[string]any{"udp": u}
+		}
+	}
 	files := map[string]string{"ca.pem": string(ca.CertPEM)}
 	var ups []*FakeUpstream
 	for i, k := range run.upKinds {
@@ -479,6 +494,8 @@ func genRun(t *rapid.T, cancelRich bool) c04Run {
 	run.perClient = rapid.SampledFrom([]int{60, 150, 300}).Draw(t, "perClient")
 	run.poolSize = rapid.SampledFrom([]int{20, 100, 400}).Draw(t, "poolSize")
 	run.maxProcs = rapid.SampledFrom([]int{0, 2, 4}).Draw(t, "gomaxprocs")
+	run.udpThreads = rapid.SampledFrom([]int{0, 0, 2, 4}).Draw(t, "udpThreads")
+	run.udpRoutes = rapid.IntRange(0, 3).Draw(t, "udpMultiRoutes") == 0
 	run.seeds = rapid.SliceOfN(rapid.Uint32(), run.clients, run.clients).Draw(t, "seeds")
 	if rapid.IntRange(0, 2).Draw(t, "prefetchRich") == 0 {
 		run.ttl = rapid.SampledFrom([]uint32{5, 6}).Draw(t, "prefetchTTL")
